@@ -270,7 +270,9 @@ def report_unions(run: Run, live: Live, mm: MetaModel, ua: UnionAnalysis, kinds:
             if found and detail.get("observed"):
                 what += f"; observed: {str(detail['observed'])[:160]}"
             run.violation(key, what, detail, failing_input_found=found)
-    return {"n_ob": n_ob, "n_dis": n_dis, "backends": backends, "samples": samples, "functions": functions, "outside": outside}
+    for d in (ua.cross or {}).get("disagree", []):
+        run.crash(f"solver disagreement: {d}")
+    return {"n_ob": n_ob, "n_dis": n_dis, "backends": backends, "samples": samples, "functions": functions, "outside": outside, "cross_check": ua.cross}
 
 
 def bounded_site(run: Run, live: Live, mm: MetaModel, res: hg.SiteResult, kinds: Set[str]):
